@@ -116,7 +116,7 @@ Record Inv (c : cfg) (s : st) : Prop := MkInv {
           forall p, pend (sto s) = Some p -> p_id p = ctr (sto s) /\ completed (sto s) < ctr (sto s);
   i_asm : stat s <> Init -> length (a_ops s) = wc c /\ length (a_srs s) = wc c /\ sorted (a_ops s) /\ sorted (a_srs s);
   i_spl : q_splitters_accumulate (qk c) = false -> stat s = Init \/ splitters (sto s) = 1;
-  i_pnd : q_keep_pending (qk c) = false ->
+  i_pnd : q_keep_pending (qk c) = false /\ q_keep_savepoint (qk c) = false ->
           forall p, pend (sto s) = Some p -> map fst (p_ops p) = a_ops s /\ map fst (p_srs p) = a_srs s
 }.
 
@@ -160,14 +160,17 @@ Lemma start_begin_inv : forall c s, Inv c s ->
 Proof.
   intros c s I Ho Hr. destruct I. unfold start_begin.
   constructor; cbn [fst ops srs hb stat a_ops a_srs sto dep_ck now pend completed ctr splitters]; auto.
-  - destruct i_sto0 as [A B]. split; [exact A|]. destruct (q_keep_pending (qk c)); [exact B | intros; discriminate].
+  - destruct i_sto0 as [A B]. split; [exact A|]. destruct (q_keep_pending (qk c)); [exact B|].
+    destruct (pend (sto s)) as [p0|] eqn:P0; [|intros; discriminate].
+    destruct (q_keep_savepoint (qk c) && p_sp p0); [exact B | intros; discriminate].
   - intros _. repeat split.
     + apply firstn_length_le. exact Ho.
     + apply firstn_length_le. exact Hr.
     + apply sorted_firstn. assumption.
     + apply sorted_firstn. assumption.
   - intros H. right. rewrite H. reflexivity.
-  - intros H. rewrite H. intros; discriminate.
+  - intros [H H2]. rewrite H. destruct (pend (sto s)) as [p0|]; [|intros; discriminate].
+    rewrite H2. cbn [andb]. intros; discriminate.
 Qed.
 
 Lemma set_stat_inv : forall c s x, Inv c s -> stat s <> Init -> Inv c (set_stat s x).
@@ -218,7 +221,7 @@ Lemma set_sto_inv : forall c s so,
   completed so <= ctr so ->
   (forall p, pend so = Some p -> p_id p = ctr so /\ completed so < ctr so) ->
   splitters so = splitters (sto s) ->
-  (q_keep_pending (qk c) = false -> forall p, pend so = Some p -> map fst (p_ops p) = a_ops s /\ map fst (p_srs p) = a_srs s) ->
+  (q_keep_pending (qk c) = false /\ q_keep_savepoint (qk c) = false -> forall p, pend so = Some p -> map fst (p_ops p) = a_ops s /\ map fst (p_srs p) = a_srs s) ->
   Inv c (set_sto s so).
 Proof.
   intros c s so I A B C D. destruct I. constructor; cbn [set_sto ops srs hb stat a_ops a_srs sto dep_ck now]; auto.
@@ -231,7 +234,7 @@ Proof.
   2:{ inversion H; subst. destruct s; exact I. }
   destruct (negb (p_id p =? id)). { inversion H; subst. destruct s; exact I. }
   pose proof (i_sto _ _ I) as [A B]. destruct (B p P) as [B1 B2].
-  set (p' := match mark n (p_ops p) with Some l => MkPending (p_id p) l (p_srs p) | None => p end) in *.
+  set (p' := match mark n (p_ops p) with Some l => MkPending (p_id p) l (p_srs p) (p_sp p) | None => p end) in *.
   assert (K : p_id p' = p_id p /\ map fst (p_ops p') = map fst (p_ops p) /\ p_srs p' = p_srs p).
   { unfold p'. destruct (mark n (p_ops p)) as [l|] eqn:M; cbn; [|auto]. repeat split. eapply mark_keys; eauto. }
   destruct K as [K1 [K2 K3]].
@@ -293,6 +296,8 @@ Proof.
   - destruct (stat s) eqn:E; try discriminate; cbn; auto 10.
   - destruct (stat s) eqn:E; cbn; auto 10.
     destruct (create_checkpoint (sto s) (a_ops s) (a_srs s)) as [so [id|]]; cbn; auto 10.
+  - destruct (stat s) eqn:E; cbn; auto 10.
+    destruct (create_savepoint (sto s) (a_ops s) (a_srs s)) as [so [[id cr]|]]; cbn; auto 10.
   - destruct (ack_op (sto s) n id) as [[so r] pub]. cbn. auto 10.
   - destruct (ack_sr (sto s) n id) as [[so r] pub]. cbn. auto 10.
 Qed.
@@ -338,6 +343,17 @@ Proof.
       apply set_sto_inv; cbn [completed ctr pend splitters]; auto; try lia.
       * intros p Hp. inversion Hp; subst. cbn. split; [reflexivity | lia].
       * intros _ p Hp. inversion Hp; subst. cbn. rewrite !map_fst_false. auto.
+    + destruct (stat s) eqn:E; try exact I.
+      unfold create_savepoint. destruct (pend (sto s)) as [p|] eqn:Pn.
+      * destruct (p_sp p); [exact I|]. cbn [fst].
+        pose proof (i_sto _ _ I) as [A B]. destruct (B p Pn) as [B1 B2].
+        apply set_sto_inv; cbn [completed ctr pend splitters]; auto.
+        -- intros q Hq. inversion Hq; subst. cbn. auto.
+        -- intros Hk q Hq. inversion Hq; subst. cbn. apply (i_pnd _ _ I Hk p Pn).
+      * cbn [fst]. pose proof (i_sto _ _ I) as [A B].
+        apply set_sto_inv; cbn [completed ctr pend splitters]; auto; try lia.
+        -- intros p Hp. inversion Hp; subst. cbn. split; [reflexivity | lia].
+        -- intros _ p Hp. inversion Hp; subst. cbn. rewrite !map_fst_false. auto.
     + destruct (ack_op (sto s) n id) as [[so r] pub] eqn:A. cbn [fst]. eapply ack_op_inv; eauto.
     + destruct (ack_sr (sto s) n id) as [[so r] pub] eqn:A. cbn [fst]. eapply ack_sr_inv; eauto.
 Qed.
@@ -524,6 +540,8 @@ Proof.
       cbn [fst snd o_published mk_obs] in *; rewrite X; cbn; split; try lia; congruence.
   - destruct (stat s); try (cbn; split; [lia | congruence]).
     unfold create_checkpoint. destruct (pend (sto s)); cbn; split; try lia; congruence.
+  - destruct (stat s); try (cbn; split; [lia | congruence]).
+    unfold create_savepoint. destruct (pend (sto s)) as [p|]; [destruct (p_sp p)|]; cbn; split; try lia; congruence.
   - unfold ack_op. destruct (pend (sto s)) as [p|] eqn:P; [|cbn; split; [lia|congruence]].
     destruct (negb (p_id p =? id)); [cbn; split; [lia|congruence]|].
     destruct (B p eq_refl) as [B1 B2].
@@ -606,7 +624,7 @@ Proof.
                           (set_sto s so, MkObs (status_code (stat s)) [] [] 0 r pub 0))).
   { destruct (proj1 (Hl a) (or_introl eq_refl)) as [[n [-> Hin]]|[n [-> Hin]]].
     - destruct (mark_spec n (p_ops p) NDo Hin) as [l2 [M [K C]]].
-      exists (MkPending (p_id p) l2 (p_srs p)). cbn [p_id p_ops p_srs]. split; [reflexivity|]. split; [rewrite K; exact NDo|]. split; [exact NDr|]. split.
+      exists (MkPending (p_id p) l2 (p_srs p) (p_sp p)). cbn [p_id p_ops p_srs]. split; [reflexivity|]. split; [rewrite K; exact NDo|]. split; [exact NDr|]. split.
       + intros a'. split.
         * intros Hin'. assert (Hne' : a' <> OAckOp n (p_id p)) by (intros ->; contradiction).
           destruct (proj1 (Hl a') (or_intror Hin')) as [[m [-> Hm]]|[m [-> Hm]]].
@@ -618,9 +636,9 @@ Proof.
           -- cbn [p_srs] in Hm.
              destruct (proj2 (Hl (OAckSr m (p_id p))) (or_intror (ex_intro _ m (conj eq_refl Hm)))) as [X|X]; [discriminate | exact X].
       + cbn [step]. unfold ack_op. rewrite P, N.eqb_refl. cbn [negb]. rewrite M.
-        destruct (finish_if_complete (sto s) (MkPending (p_id p) l2 (p_srs p))) as [[so r] pub]. reflexivity.
+        destruct (finish_if_complete (sto s) (MkPending (p_id p) l2 (p_srs p) (p_sp p))) as [[so r] pub]. reflexivity.
     - destruct (mark_spec n (p_srs p) NDr Hin) as [l2 [M [K C]]].
-      exists (MkPending (p_id p) (p_ops p) l2). cbn [p_id p_ops p_srs]. split; [reflexivity|]. split; [exact NDo|]. split; [rewrite K; exact NDr|]. split.
+      exists (MkPending (p_id p) (p_ops p) l2 (p_sp p)). cbn [p_id p_ops p_srs]. split; [reflexivity|]. split; [exact NDo|]. split; [rewrite K; exact NDr|]. split.
       + intros a'. split.
         * intros Hin'. assert (Hne' : a' <> OAckSr n (p_id p)) by (intros ->; contradiction).
           destruct (proj1 (Hl a') (or_intror Hin')) as [[m [-> Hm]]|[m [-> Hm]]].
@@ -632,7 +650,7 @@ Proof.
           -- cbn [p_srs] in Hm. apply C in Hm. destruct Hm as [[_ X]|[Hmn Hm]]; [discriminate|].
              destruct (proj2 (Hl (OAckSr m (p_id p))) (or_intror (ex_intro _ m (conj eq_refl Hm)))) as [X|X]; [inversion X; congruence | exact X].
       + cbn [step]. unfold ack_sr. rewrite P, N.eqb_refl. cbn [negb]. rewrite M.
-        destruct (finish_if_complete (sto s) (MkPending (p_id p) (p_ops p) l2)) as [[so r] pub]. reflexivity. }
+        destruct (finish_if_complete (sto s) (MkPending (p_id p) (p_ops p) l2 (p_sp p))) as [[so r] pub]. reflexivity. }
   destruct STEP as [p' [Pid' [NDo' [NDr' [Hl' St]]]]].
   cbn [run]. rewrite St. clear St. unfold finish_if_complete.
   destruct (complete p') eqn:Cp.
